@@ -396,4 +396,24 @@ def simpleFlow : FlowOps SimpleFc :=
     clearBlocked := fun f => { f with blocked := false },
     finish := fun f => f }
 
+/-! ## observers (`transmission::interest::Provider for DataSender`, `is_inflight`, `available_buffer_space`) -/
+
+/-- `transmission_interest`: 2 = LostData, 1 = NewData, 0 = None (the query keeps the maximum) -/
+def Sender.interest (ops : FlowOps F) (s : Sender F) : Nat :=
+  if s.state = .finishing .lost then 2
+  else if s.lost ≠ [] then 2
+  else if (s.state = .finishing .pending ∧ !ops.isBlocked s.fc) then 1
+  else if (s.transmissionOffset < s.totalLen ∧ !ops.isBlocked s.fc) then 1
+  else 0
+
+/-- `is_inflight`: `!transmissions.is_empty() || state.is_inflight()` -/
+def Sender.isInflight (s : Sender F) : Bool :=
+  !s.transmissions.isEmpty ||
+    (match s.state with
+     | .finishing (.inFlight _) => true
+     | _ => false)
+
+/-- `buffer.enqueued_len()` = `total_len − head` -/
+def Sender.enqueuedLen (s : Sender F) : Nat := s.bytes.length
+
 end Quic.Stream.DataSender
